@@ -9,9 +9,18 @@ body  ss : n, A (n·n), B (n·m), C (p·n), D (p·m)            (rationals, row 
       frd: w, omega (w), then p·m·w pairs `re im`
 selector: `I k` | `N s:name` | `S a b c` (`_` = None) | `L cnt (I k | N s:name)…` | `X`
 answer:   `ok <cls> <name> <dt> <p> <m> <outs…> <ins…> <body>` | `err <Err>`
+
+Call histories (Model/IndexHist.lean: selector objects kept by the caller and used again):
+
+  idx hist <k> <selector>*k <n> ( <cls> <pre> … <body> <row variable> <col variable>
+                                 | W <variable> <selector> )*n          (W = the caller edits its object)
+
+answer:   `hist <answer of call 1> ## … ## <answer of last call> ## store <selector>*k`
+          (the caller's selector objects after the last call)
 -/
 import CtrlVerif.Driver.Util
 import CtrlVerif.Model.Index
+import CtrlVerif.Model.IndexHist
 import Mathlib.Algebra.Field.Rat
 
 namespace CtrlVerif.Driver.Index
@@ -88,45 +97,43 @@ def pHead : P Head := do
   let ins ← pArray m pStr
   pure ⟨⟨pre, suf⟩, name, dt, p, m, outs, ins⟩
 
-def runSS : P String := do
+def sysSS : P (Sel → Sel → String) := do
   let h ← pHead
   let n ← pNat
   let A ← pArray (n * n) pRat
   let B ← pArray (n * h.m) pRat
   let C ← pArray (h.p * n) pRat
   let D ← pArray (h.p * h.m) pRat
-  let kr ← pSel
-  let kc ← pSel
   let G : SSB Q n h.p h.m := ⟨matOf A, matOf B, matOf C, matOf D⟩
   let S : Sys (SSB Q n) := ⟨h.p, h.m, G, labelsOf h.outs, labelsOf h.ins, h.dt, h.name⟩
-  match getitem (P := SSB Q n) ssCtor h.cfg S kr kc with
-  | .error e => pure (showErr e)
-  | .ok R =>
-    pure (header "ss" R ++ s!" {n}" ++ showMat R.body.A ++ showMat R.body.B ++ showMat R.body.C
-      ++ showMat R.body.D)
+  pure fun kr kc =>
+    match getitem (P := SSB Q n) ssCtor h.cfg S kr kc with
+    | .error e => showErr e
+    | .ok R =>
+      header "ss" R ++ s!" {n}" ++ showMat R.body.A ++ showMat R.body.B ++ showMat R.body.C
+        ++ showMat R.body.D
 
-def runTF : P String := do
+def sysTF : P (Sel → Sel → String) := do
   let h ← pHead
   let ents ← pArray (h.p * h.m) (do
     let n ← pList pRat
     let d ← pList pRat
     pure (⟨n, d⟩ : Frac Q))
-  let kr ← pSel
-  let kc ← pSel
   if ents.any (fun f => f.num.isEmpty || f.den.isEmpty) then throw "leaf:empty"
   match TFM.mk' (o := Fin h.p) (ι := Fin h.m)
       (fun i j => ents.getD (i.val * h.m + j.val) Frac.zero) with
-  | .error e => pure ("bad-op leaf-" ++ toString e)
+  | .error e => pure fun _ _ => "bad-op leaf-" ++ toString e
   | .ok G =>
     let S : Sys (TFB Q) := ⟨h.p, h.m, G, labelsOf h.outs, labelsOf h.ins, h.dt, h.name⟩
-    match getitem (P := TFB Q) tfCtor h.cfg S kr kc with
-    | .error e => pure (showErr e)
-    | .ok R =>
-      pure (header "tf" R ++ String.join ((List.finRange R.p).map fun i =>
-        String.join ((List.finRange R.m).map fun j =>
-          " " ++ showRats (R.body.e i j).num ++ " " ++ showRats (R.body.e i j).den)))
+    pure fun kr kc =>
+      match getitem (P := TFB Q) tfCtor h.cfg S kr kc with
+      | .error e => showErr e
+      | .ok R =>
+        header "tf" R ++ String.join ((List.finRange R.p).map fun i =>
+          String.join ((List.finRange R.m).map fun j =>
+            " " ++ showRats (R.body.e i j).num ++ " " ++ showRats (R.body.e i j).den))
 
-def runFRD : P String := do
+def sysFRD : P (Sel → Sel → String) := do
   let h ← pHead
   let w ← pNat
   let omega ← pArray w pRat
@@ -134,25 +141,70 @@ def runFRD : P String := do
     let re ← pRat
     let im ← pRat
     pure (re, im))
-  let kr ← pSel
-  let kc ← pSel
   let F : FRDB Q (Q × Q) h.p h.m :=
     ⟨omega.toList, fun i j => (List.range w).map fun k =>
       dat.getD ((i.val * h.m + j.val) * w + k) (0, 0)⟩
   let S : Sys (FRDB Q (Q × Q)) := ⟨h.p, h.m, F, labelsOf h.outs, labelsOf h.ins, h.dt, h.name⟩
-  match getitem (P := FRDB Q (Q × Q)) frdCtor h.cfg S kr kc with
-  | .error e => pure (showErr e)
-  | .ok R =>
-    pure (header "frd" R ++ " " ++ showRats R.body.omega
-      ++ String.join ((List.finRange R.p).map fun i =>
-        String.join ((List.finRange R.m).map fun j =>
-          String.join ((R.body.data i j).map fun z => " " ++ showRat z.1 ++ " " ++ showRat z.2))))
+  pure fun kr kc =>
+    match getitem (P := FRDB Q (Q × Q)) frdCtor h.cfg S kr kc with
+    | .error e => showErr e
+    | .ok R =>
+      header "frd" R ++ " " ++ showRats R.body.omega
+        ++ String.join ((List.finRange R.p).map fun i =>
+          String.join ((List.finRange R.m).map fun j =>
+            String.join ((R.body.data i j).map fun z => " " ++ showRat z.1 ++ " " ++ showRat z.2)))
+
+/-- one call: the system, then the two selectors as written. -/
+def runOne (sys : P (Sel → Sel → String)) : P String := do
+  let f ← sys
+  let kr ← pSel
+  let kc ← pSel
+  pure (f kr kc)
+
+def showOptInt : Option Int → String
+  | none => "_"
+  | some k => toString k
+
+def showItem : Item → String
+  | .idx k => s!"I {k}"
+  | .name s => "N " ++ showStr s
+
+def showSel : Sel → String
+  | .idx k => s!"I {k}"
+  | .name s => "N " ++ showStr s
+  | .slice a b c => s!"S {showOptInt a} {showOptInt b} {showOptInt c}"
+  | .list l => s!"L {l.length}" ++ String.join (l.map fun it => " " ++ showItem it)
+  | .bad => "X"
+
+/-- a history (`Index.runEvents`): the caller's selector objects, then the events: calls, each on its
+own system (any class) with the numbers of the variables that hold the two selectors, and edits
+`W <variable> <selector>` of the caller's own objects. -/
+def runHistLine : P String := do
+  let store ← pList pSel
+  let n ← pNat
+  let mut evs : Array (Event String) := #[]
+  for _ in [0:n] do
+    let cls ← tok
+    if cls == "W" then
+      let v ← pNat
+      let x ← pSel
+      evs := evs.push (.write v x)
+    else
+      let f ← (if cls == "ss" then sysSS else if cls == "tf" then sysTF
+        else if cls == "frd" then sysFRD else throw s!"hist-class:{cls}")
+      let r ← pNat
+      let c ← pNat
+      evs := evs.push (.call ⟨f, r, c⟩)
+  let res := runEvents store evs.toList
+  pure ("hist" ++ String.join (res.1.map fun s => " " ++ s ++ " ##") ++ " store"
+    ++ String.join (res.2.map fun s => " " ++ showSel s))
 
 def handle (toks : List String) : String :=
   match toks with
-  | "ss" :: rest => runLine runSS rest
-  | "tf" :: rest => runLine runTF rest
-  | "frd" :: rest => runLine runFRD rest
+  | "ss" :: rest => runLine (runOne sysSS) rest
+  | "tf" :: rest => runLine (runOne sysTF) rest
+  | "frd" :: rest => runLine (runOne sysFRD) rest
+  | "hist" :: rest => runLine runHistLine rest
   | _ => "bad-op idx-class"
 
 end CtrlVerif.Driver.Index
